@@ -543,8 +543,20 @@ impl Parser {
                         // index expressions other than literals and variables are bound to
                         // temporaries (whose names are not valid identifiers) first. To keep the
                         // left-to-right order of failures, the place in front of such an index is
-                        // read (and thereby bounds-checked) before the index is evaluated.
+                        // read (and thereby bounds-checked) before the index is evaluated. If any
+                        // index needs a temporary, variables used as indices get one as well, so
+                        // that a later index expression which assigns to such a variable does not
+                        // change an index that has already been evaluated.
                         let mut accessors = accessors;
+                        let binds_indices = accessors.iter().any(|(access, _)| {
+                            matches!(
+                                access,
+                                Accessor::ArrayAccess { index, .. } if !matches!(
+                                    index.inner,
+                                    ExprEnum::NumUnsigned(_, _) | ExprEnum::Identifier(_)
+                                )
+                            )
+                        });
                         let mut index_bindings = vec![];
                         let mut place = Expr::untyped(
                             ExprEnum::Identifier(identifier.clone()),
@@ -554,10 +566,9 @@ impl Parser {
                         for (access, _) in accessors.iter_mut() {
                             match access {
                                 Accessor::ArrayAccess { index, .. } => {
-                                    if !matches!(
-                                        index.inner,
-                                        ExprEnum::NumUnsigned(_, _) | ExprEnum::Identifier(_)
-                                    ) {
+                                    if binds_indices
+                                        && !matches!(index.inner, ExprEnum::NumUnsigned(_, _))
+                                    {
                                         if unchecked_array_access {
                                             let tmp = format!("<place {}>", index_bindings.len());
                                             index_bindings.push(Stmt::new(
@@ -571,7 +582,6 @@ impl Parser {
                                                 ),
                                                 meta,
                                             ));
-                                            unchecked_array_access = false;
                                         }
                                         let tmp = format!("<index {}>", index_bindings.len());
                                         let index_meta = index.meta;
